@@ -175,7 +175,7 @@ def c14(report):
     jobs = []
     bins = ["thr", "flip", "ge2"] if report.tier == "thorough" else [["thr", "flip", "ge2"][report.seed % 3], "thr"]
     for b in dict.fromkeys(bins):
-        rewards = {0, 1} if b == "flip" else {0, 1, 2, 3}
+        rewards = {0, 1} if b == "flip" else {0, 2, 3}
         over = dict(InitBin=b, Rewards=rewards, NewBins={"keep", "flip" if b != "flip" else "thr"}, QueryRows={0})
         jobs += cf_jobs(["ts"], report.tier, report.seed, over=over, tag="-" + b)
     ecf.run_jobs(report, jobs, by_clause("state.acc", "state.bin", "call.exception", "fresh", "confluence"))
